@@ -67,17 +67,26 @@ class Obj:
         return f"<Obj {self._name}>"
 
     def __str__(self):
-        if self._name.startswith("exc:"):   # str(exc) is the message
+        cls = self._attrs.get("__class__")
+        it = _ACTIVE_INTERP[0]
+        if it is not None and isinstance(cls, ClassInfo):
+            m = it.index.method(cls, "__str__")
+            if m is not None:
+                return it.call(m, (), {}, self_obj=self, depth=5)
+        if self._name.startswith("exc:") or self._attrs.get("__exc__"):   # str(exc) is the message
             a = self._attrs.get("args")
             if isinstance(a, tuple) and len(a) == 1:
                 return str(a[0])
             if isinstance(a, tuple) and not a:
                 return ""
+            if isinstance(a, tuple):
+                return str(a)
             if self._attrs.get("detail") is not None:
                 return str(self._attrs["detail"])
         return repr(self)
 
 
+_ACTIVE_INTERP = [None]      # the interpreter whose evaluation is under way (str() of an instance dispatches to the class's own __str__)
 NOT_MODELLED = "[not-modelled]"
 
 
@@ -100,6 +109,11 @@ class _Break(Exception):
 
 class _Continue(Exception):
     pass
+
+
+class HookDecline(Exception):
+    """Raised by an "attr:<name>" hook that stands for a library method when the receiver turns out to be an instance of a repository class that defines the
+    method itself: the program's own method is evaluated instead."""
 
 
 class Raised(Exception):
@@ -184,7 +198,7 @@ import types as _types  # noqa: E402
 
 PURE_BUILTINS = {
     "object": lambda: Obj("sentinel"), "id": id, "iter": iter, "bytes": bytes, "divmod": divmod, "round": round, "ord": ord, "chr": chr, "format": format,
-    "int": int, "str": str, "len": len, "set": set, "list": list, "dict": dict, "sorted": sorted, "enumerate": enumerate, "zip": zip,
+    "int": int, "str": str, "len": len, "hash": hash, "id": id, "set": set, "list": list, "dict": dict, "sorted": sorted, "enumerate": enumerate, "zip": zip,
     "range": range, "min": min, "max": max, "any": any, "all": all, "tuple": tuple, "frozenset": frozenset, "bool": bool, "float": float,
     "isinstance": None, "hasattr": None, "repr": repr, "abs": abs, "sum": sum, "reversed": reversed, "dict.fromkeys": dict.fromkeys,
     "print": lambda *a, **k: None,
@@ -225,13 +239,17 @@ PURE_EXTERNAL = {
     "itertools.batched": lambda it, n_: __import__("itertools").batched(it, n_),
     "functools.reduce": lambda *a: __import__("functools").reduce(*a),
     "xml.etree.ElementTree.fromstring": lambda s_, *a, **k: __import__("xml.etree.ElementTree").etree.ElementTree.fromstring(s_),
-    "time.perf_counter": lambda: 0.0, "time.monotonic": lambda: 0.0, "time.time": lambda: 0.0, "time.process_time": lambda: 0.0,
+    "time.perf_counter": lambda: 0.0, "time.monotonic": lambda: 0.0, "time.process_time": lambda: 0.0,
     "fnmatch.filter": lambda names, pat: __import__("fnmatch").filter(list(names), pat),
     "fnmatch.fnmatch": lambda n, pat: __import__("fnmatch").fnmatch(n, pat),
     "fnmatch.fnmatchcase": lambda n, pat: __import__("fnmatch").fnmatchcase(n, pat),
     "fnmatch.translate": lambda pat: __import__("fnmatch").translate(pat),
     "re.escape": re.escape,
     "collections.ChainMap": ChainMap,
+    # who am I: the environment's answer and the uid's answer are different symbolic accounts (they differ under `su -m`, `sudo -E`, containers, cron wrappers)
+    "getpass.getuser": lambda: "env-account", "os.getlogin": lambda: "env-account", "os.getuid": lambda: 1000, "os.geteuid": lambda: 1000,
+    "pwd.getpwuid": lambda uid: Obj("pwent", pw_name="uid-account", pw_uid=uid, pw_dir="/home/uid-account"),
+    "socket.gethostname": lambda: tok("HOSTNAME"), "platform.node": lambda: tok("HOSTNAME"), "os.uname": lambda: Obj("uname", nodename=tok("HOSTNAME"), sysname="Linux"),
     "pathlib.Path": lambda *a: _sympath(*a), "pathlib.PurePath": lambda *a: _sympath(*a), "pathlib.PosixPath": lambda *a: _sympath(*a),
     "pathlib.PurePosixPath": lambda *a: _sympath(*a),
     "weakref.WeakKeyDictionary": lambda *a, **k: dict(*a, **k), "weakref.WeakValueDictionary": lambda *a, **k: dict(*a, **k), "weakref.WeakSet": lambda *a: set(*a),
@@ -257,6 +275,61 @@ for _k in list(PURE_EXTERNAL):
         PURE_EXTERNAL[_k] = _accept_pathlike(PURE_EXTERNAL[_k])
 
 
+# --------------------------------------------------------------------------- the clock of the modelled machine
+import datetime as _dt
+CLOCK = 1_700_000_000.0      # seconds since the epoch "now" (file modification times are on this scale)
+UTC_OFFSET = 3600.0          # the modelled machine's local time zone is one hour east of UTC; nothing in the program may depend on it being zero
+_LOCAL_TZ = _dt.timezone(_dt.timedelta(seconds=UTC_OFFSET))
+
+
+MODEL_CLOCK = [CLOCK]        # the current reading; a witness with a disk model advances it with every file operation
+
+
+class ModelDateTime(_dt.datetime):
+    """datetime with the stdlib's rules for naive values (a naive value is read as local wall-clock time) applied in the modelled zone, not the host's."""
+
+    def timestamp(self):
+        if self.tzinfo is None:
+            return (self - _dt.datetime(1970, 1, 1)).total_seconds() - UTC_OFFSET
+        return _dt.datetime.timestamp(self)
+
+    def astimezone(self, tz=None):
+        aware = self.replace(tzinfo=_LOCAL_TZ) if self.tzinfo is None else self
+        return _dt.datetime.astimezone(aware, tz or _LOCAL_TZ)
+
+
+def _model_now(tz=None):
+    if tz is None:
+        return ModelDateTime.fromtimestamp(MODEL_CLOCK[0], _LOCAL_TZ).replace(tzinfo=None)
+    return ModelDateTime.fromtimestamp(MODEL_CLOCK[0], tz)
+
+
+def _model_fromtimestamp(ts, tz=None):
+    if tz is None:
+        return ModelDateTime.fromtimestamp(float(ts), _LOCAL_TZ).replace(tzinfo=None)
+    return ModelDateTime.fromtimestamp(float(ts), tz)
+
+
+def _model_struct(ts, offset):
+    import time as _t
+    return _t.gmtime(float(ts) + offset)
+
+
+PURE_EXTERNAL.update({
+    "time.time": lambda: MODEL_CLOCK[0], "time.time_ns": lambda: int(MODEL_CLOCK[0] * 1e9),
+    "datetime.datetime.now": _model_now, "datetime.datetime.today": lambda: _model_now(),
+    "datetime.datetime.utcnow": lambda: ModelDateTime.fromtimestamp(MODEL_CLOCK[0], _dt.timezone.utc).replace(tzinfo=None),
+    "datetime.datetime.fromtimestamp": _model_fromtimestamp,
+    "datetime.datetime.utcfromtimestamp": lambda ts: ModelDateTime.fromtimestamp(float(ts), _dt.timezone.utc).replace(tzinfo=None),
+    "datetime.timedelta": _dt.timedelta, "datetime.timezone": _dt.timezone,
+    # struct_time values: gmtime() is the UTC wall clock, localtime() the local one; mktime reads a struct as local time, timegm as UTC
+    "time.gmtime": lambda ts=None: _model_struct(MODEL_CLOCK[0] if ts is None else ts, 0.0),
+    "time.localtime": lambda ts=None: _model_struct(MODEL_CLOCK[0] if ts is None else ts, UTC_OFFSET),
+    "time.mktime": lambda st: float(__import__("calendar").timegm(st)) - UTC_OFFSET,
+    "calendar.timegm": lambda st: __import__("calendar").timegm(st),
+})
+
+
 SAFE_METHODS = {
     str: {"format", "join", "strip", "rstrip", "lstrip", "split", "splitlines", "replace", "startswith", "endswith", "lower", "upper", "partition",
           "rpartition", "center", "ljust", "rjust", "encode", "isdigit", "count", "find", "title", "removeprefix", "removesuffix", "rsplit", "zfill", "casefold",
@@ -274,6 +347,8 @@ SAFE_METHODS = {
     re.Pattern: {"fullmatch", "match", "search", "sub", "findall"},
     ChainMap: {"get", "items", "keys", "values", "pop", "update", "new_child"},
     _types.MappingProxyType: {"get", "items", "keys", "values"},
+    ModelDateTime: {"timestamp", "replace", "astimezone", "isoformat", "strftime", "utcoffset", "date", "time", "__sub__", "__add__", "__eq__", "__lt__", "__le__", "__gt__", "__ge__"},
+    _dt.timedelta: {"total_seconds", "__add__", "__sub__", "__mul__", "__neg__", "__eq__", "__lt__", "__le__", "__gt__", "__ge__"},
 }
 
 
@@ -374,6 +449,8 @@ class PureInterp:
     def call(self, finfo, args=(), kwargs=None, self_obj=None, depth=0, closure=None, _raw=False):
         if depth > max(self.max_depth, 40 if closure is not None else 0):
             raise Unsupported("recursion depth")
+        if depth == 0:
+            _ACTIVE_INTERP[0] = self
         kwargs = dict(kwargs or {})
         if not _raw and closure is None and getattr(finfo.node, "decorator_list", None):
             wrapped = self._repo_decorated(finfo, depth)
@@ -866,6 +943,14 @@ class PureInterp:
                 return l | r
             if isinstance(op, ast.BitAnd):
                 return l & r
+            if isinstance(op, ast.BitXor):
+                return l ^ r
+            if isinstance(op, ast.Pow) and isinstance(l, (int, float)) and isinstance(r, (int, float)) and abs(r) <= 64:
+                return l ** r
+            if isinstance(op, ast.LShift) and isinstance(r, int) and r <= 64:
+                return l << r
+            if isinstance(op, ast.RShift):
+                return l >> r
         except (TypeError, ValueError, ZeroDivisionError) as exc:
             raise Raised(type(exc).__name__, str(exc))
         raise Unsupported("operator")
@@ -1259,7 +1344,14 @@ class PureInterp:
                 recv = self.eval(n.func.value, env, module, depth)
             except (Unsupported, Raised):
                 pass
-            return self._hook(self.hooks["attr:" + n.func.attr], [recv] + list(args), kwargs)
+            try:
+                return self._hook(self.hooks["attr:" + n.func.attr], [recv] + list(args), kwargs)
+            except HookDecline:
+                cls_ = recv.__dict__["_attrs"].get("__class__") if isinstance(recv, Obj) else None
+                mth_ = self.index.method(cls_, n.func.attr) if isinstance(cls_, ClassInfo) else None
+                if mth_ is None:
+                    raise Unsupported(f"hook for .{n.func.attr}() declined a receiver without such a method")
+                return self.call(mth_, args, kwargs, self_obj=recv, depth=depth + 1)
         if isinstance(n.func, ast.Attribute) and dotted(n.func.value) in ("logger", "logging", "log") and dotted(n.func.value) not in env \
                 and n.func.attr in ("debug", "info", "warning", "warn", "error", "exception", "critical", "log"):
             self.events.append(("log", n.func.attr, tuple(args)))
@@ -1471,7 +1563,9 @@ class PureInterp:
                         args = [self._pycallable(a_, depth) for a_ in args]
                         kwargs = {k_: self._pycallable(v_, depth) for k_, v_ in kwargs.items()}
                     return PURE_EXTERNAL[name](*args, **kwargs)
-                except (TypeError, ValueError) as exc:
+                except (Raised, Unsupported):
+                    raise
+                except Exception as exc:     # what the library function raises for these arguments is what the program gets (ParseError, re.error, JSONDecodeError ...)
                     raise Raised(type(exc).__name__, str(exc))
             if name.startswith("logging.") or ".logger." in name or name.startswith("click.echo") or name.startswith("click.secho"):
                 self.events.append(("log", name, args))
@@ -1489,6 +1583,12 @@ class PureInterp:
                 except TypeError as exc:
                     raise Raised("TypeError", str(exc))
             o = Obj(f.name, _args=tuple(args), _kwargs=dict(kwargs), **{"__class__": f})
+            ext_ = [b_ for b_ in self.index.mro_names(f)[1:] if not isinstance(self.index.lookup(b_), ClassInfo)]
+            if any(b_.rsplit(".", 1)[-1].endswith(("Exception", "Error", "Exit", "Interrupt", "Abort", "Warning")) for b_ in ext_):
+                o.args = tuple(args)          # BaseException.__new__ keeps the constructor arguments, whatever __init__ does
+                o.__dict__["_attrs"]["__exc__"] = True
+                if any(b_.startswith("click.") for b_ in ext_) and args:
+                    o.message = args[0]       # click.ClickException(message)
             init = self.index.method(f, "__init__")
             if init is not None:
                 self.call(init, args, kwargs, self_obj=o, depth=depth + 1)
